@@ -1202,7 +1202,7 @@ class OrderedMultiDict(dict):
         """
         # E and F are throwback names to the dict() __doc__
         if E is self:
-            return
+            E = ()  # nothing to take over from itself, F still applies
         self_add = self.add
         if isinstance(E, OrderedMultiDict):
             for k in E:
